@@ -354,7 +354,8 @@ def driver_main(args):
 
     violations = []
     unreproduced = []
-    os.makedirs(os.path.join(ROOT, "replays", pid), exist_ok=True)
+    rdir = os.environ.get("VERIF_REPLAY_DIR") or "replays"   # relative to ROOT unless absolute
+    os.makedirs(os.path.join(ROOT, rdir, pid), exist_ok=True)
     # regression files that fail are violations with the committed file as replay
     seen_files = set()
     for f, o in reg_unknown:
@@ -364,7 +365,7 @@ def driver_main(args):
         violations.append({"bucket": o["bucket"], "replay": f, "detail": o.get("detail")})
     for bucket, c in sorted(cand.items()):
         name = f"{safe(bucket)}-{gen.case_hash(c['case'])}.json"
-        path = os.path.join("replays", pid, name)
+        path = os.path.join(rdir, pid, name)
         with open(os.path.join(ROOT, path), "w") as fd:
             json.dump({"property": pid, "bucket": bucket, "case": c["case"],
                        "detail": c.get("detail"), "seed": seed, "tier": tier}, fd, indent=1,
@@ -474,8 +475,9 @@ def write_evidence(mod, tier, seed, t0, results, violations, unreproduced, known
         "wall_s": round(time.time() - t0, 2),
         "violations": len(violations),
     }
-    os.makedirs(os.path.join(ROOT, "evidence"), exist_ok=True)
-    with open(os.path.join(ROOT, "evidence", f"{mod.ID}.json"), "w") as fd:
+    evdir = os.environ.get("VERIF_EVIDENCE_DIR") or os.path.join(ROOT, "evidence")
+    os.makedirs(evdir, exist_ok=True)
+    with open(os.path.join(evdir, f"{mod.ID}.json"), "w") as fd:
         json.dump(ev, fd, indent=1, default=str)
 
 
